@@ -253,8 +253,15 @@ DotBracketAgree ==
 Total == Done => Outcome.kind \in {"error", "nil", "sub", "func", "leaf", "composite"}
 
 Composite == {"top", "core", "inner", "pinner", "outer", "outer2", "tags", "arr", "outers", "m", "mn", "mi", "mp", "s:hi"}
+\* isset never fails: arguments whose evaluation runs into a Go run-time error (not an error Jet raises itself)
+\* are simply not set.  imap is a map[interface{}]string, gzero the int 0, pnil a nil pointer whose method BoomM
+\* dereferences its receiver.
+Hostile == << "imap[root.Tags]",            \* unhashable map key
+              "root.Tags[root.Age / gzero]", \* integer division by zero inside the index
+              "pnil.BoomM().Name",           \* a method that dereferences its nil receiver
+              "root.Tags[imap[root.Tags]]" >>
 EmitCatalogue == (Emit /\ phase = "grow" /\ path = <<>> /\ root = "outer") =>
-  PrintT(<<"VEC", ToJson([catalogue |-> [id \in Composite |-> Obj(id)]])>>)
+  PrintT(<<"VEC", ToJson([catalogue |-> [id \in Composite |-> Obj(id)], hostile |-> Hostile])>>)
 
 EmitVec == (Emit /\ Done) =>
   PrintT(<<"VEC", ToJson([root |-> root, path |-> path, outcome |-> Outcome, isset |-> IsSetPath(root, path), keypresent |-> KeyPresent])>>)
